@@ -59,6 +59,22 @@ class RuleStat:
   exhaustive: bool = False
 
 
+_OUTCOME = re.compile(r"""['"](return|raise)\b""")
+
+
+def _undecided(message: str) -> bool:
+  """Does a failed obligation say "the run was not decided" rather than "the result is wrong"? A run that ends in ONE
+  raise is decided (a refusal); several outcomes, an opaque result or no outcome at all are not."""
+  if 'undecided in ' in message:
+    return True
+  if 'not decided' not in message:
+    return False
+  kinds = _OUTCOME.findall(message)
+  if len(kinds) == 1 and kinds[0] == 'raise':
+    return False
+  return True
+
+
 class Ctx:
   """Per-run context handed to every rule."""
 
@@ -97,6 +113,22 @@ class Ctx:
     if ok:
       rs.discharged += 1
       return True
+    if _undecided(str(message)):
+      # The interpreter could not follow the code to ONE outcome (a construct it does not model): that is "cannot
+      # decide", not "the property is broken". It is reported as an analysis error of this rule (exit 2 unless another
+      # rule reports a violation), never as a VIOLATION - a correct rewrite in an unmodelled style must not raise an alarm.
+      rs.obligations -= 1
+      rs.unresolved += 1
+      if isinstance(scope, index.FuncInfo):
+        where = scope.loc(where) if not isinstance(where, str) else where
+        scope = scope.fq
+      text = f'{rule} [{scope}] {norm_stmt(construct)[:120]}: {str(message)[:300]}'
+      errs = getattr(self, 'analysis_errors', None)
+      if errs is None:
+        errs = self.analysis_errors = []
+      if not any(e.startswith(f'{rule} [') for e in errs):   # one line per rule is enough
+        errs.append(text)
+      return False
     self.violate(rule, where, scope, construct, message, path, count=False)
     return False
 
